@@ -67,15 +67,16 @@ func posEvent(w *tr.Writer, text []byte, off, rk int) (ev tr.E, o ctxObs) {
 }
 
 type row struct {
-	Off   int `json:"off"`
-	Line  int `json:"line"`
-	ColLo int `json:"colLo"`
-	ColHi int `json:"colHi"`
-	Ls    int `json:"ls"`
-	N     int `json:"n"`
-	Tgt   int `json:"tgt"`
-	Bd    int `json:"bd"`
-	Col   int `json:"col"`
+	Off    int  `json:"off"`
+	Line   int  `json:"line"`
+	ColLo  int  `json:"colLo"`
+	ColHi  int  `json:"colHi"`
+	Ls     int  `json:"ls"`
+	N      int  `json:"n"`
+	Tgt    int  `json:"tgt"`
+	Bd     int  `json:"bd"`
+	Col    int  `json:"col"`
+	IdNext bool `json:"idnext"`
 }
 
 type tcase struct {
@@ -305,6 +306,9 @@ func replayInsert(w *tr.Writer, sum *summary, c *tcase, tid *int) {
 	}
 	for _, r := range c.Rows {
 		for _, ill := range c.Illegal {
+			if len(ill) == 1 && ill[0] == '#' && r.IdNext {
+				continue // '#' + identifier is a token (a private name), not an illegal character
+			}
 			doc := append(append(append([]byte{}, base[:r.Off]...), toBytes(ill)...), base[r.Off:]...)
 			*tid++
 			sum.Executions++
